@@ -479,6 +479,10 @@ def detect_cfg():
     cfg["missingGe"] = ok(lambda: len(list(T(columns=["a"]).insert([[1], [M], [3]]).where(a={">=": 3}))) == 2)
     cfg["matchEmpty"] = ok(lambda: list(T(columns=["a"]).where(a={"match": 1})) == [] and list(T(columns=["a"]).where(a={"match": "x"})) == [])
     cfg["dictLen"] = ok(lambda: len(list(T(columns=["a"]).insert([{}, {}]))) == 2)
+    cfg["resortInsert"] = ok(lambda: list(T(columns=["a"]).insert([[3], [1]]).index("a").insert([[2], [0]])) == [(0,), (1,), (2,), (3,)])
+    cfg["bisectFallback"] = ok(lambda: list(T(columns=["a"]).insert([[2], [1]]).index("a").where(a="q")) == [])
+    cfg["notinSentinel"] = ok(lambda: len(list(T(columns=["a"]).insert([[M], [M]]).index("a").where(None, "!in", a=[None]))) == 0)
+    cfg["matchPerCell"] = ok(lambda: list(T(columns=["a"]).insert([{"a": "y"}, {"a": "x", "c": "on"}]).where(c={"match": "on"})) == [("x", "on")])
     _CFG.update(cfg)
     return _CFG
 
@@ -692,6 +696,45 @@ class Runner:
             return
         if r is not t:
             self.fail("op #%d insert did not return the table" % n, "insert:return")
+        if idx and payload and set(cols2) == set(allcols) and len(cols2) == len(allcols):
+            # the table was indexed: afterwards it either still is and its rows are in index order (the old rows followed by the
+            # new ones if that is in order, else the same rows sorted), or - when the values cannot be ordered - it is no longer
+            # indexed and shows the old rows followed by the new ones
+            self.tags.append("insert:into-indexed")
+            try:
+                idx2 = list(t.indexes)
+            except Exception as e:  # noqa
+                self.fail("op #%d: indexes raised after insert: %r" % (n, e), "insert:indexes-raised")
+                return
+            in_order = sorted_by(allcols, idx, expect)
+            sortable = True
+            try:
+                import functools
+                sorted(expect, key=functools.cmp_to_key(lambda x, y: -1 if lex_lt(allcols, idx, x, y) else (1 if lex_lt(allcols, idx, y, x) else 0)))
+                for c in idx:
+                    vals = [x[allcols.index(c)] for x in expect]
+                    for a in vals:
+                        for b in vals:
+                            n_lt(a, b)
+            except Undefined:
+                sortable = False
+            self.tags.append("insert:into-indexed:" + ("in-order" if in_order else "unsortable" if not sortable else "out-of-order"))
+            what = "op #%d insert(%s) into a table indexed by %s: afterwards indexes %s rows %s; old rows + new rows are %s" % (n, sh, idx, idx2, rows2[:12], expect[:12])
+            if sorted(got) != sorted(exp):
+                self.fail(what, "insert:rows-differ")
+            elif idx2 == idx:
+                if sorted_by(cols2, idx, rows2) is not True:
+                    self.fail(what + " - the table still claims the index but its rows are not in index order", "insert-leaves-rows-out-of-index-order")
+                elif in_order and got != exp:
+                    self.fail(what + " - the rows were in index order already but were rearranged", "insert:reordered-needlessly")
+            elif idx2 == []:
+                if got != exp:
+                    self.fail(what, "insert:rows-differ")
+                elif sortable:
+                    self.fail(what + " - the index was dropped although the rows can be ordered", "insert:index-dropped")
+            else:
+                self.fail(what, "insert:indexes-changed")
+            return
         if got != exp or set(cols2) != set(allcols) or len(cols2) != len(allcols):
             sig = "insert:rows-differ"
             if sh == "dicts" and payload and all(len(d) == 0 for d in payload) and not self.cfg["dictLen"]:
@@ -745,7 +788,7 @@ class Runner:
         if srt is False:
             if dup:
                 sig = "index-duplicate-columns:not-sorted"
-            elif tuple(idx) == tuple(req) and sorted_by(cols, idx, rows) is False:
+            elif tuple(idx) == tuple(req) and sorted_by(cols, idx, rows) is False and not self.cfg["resortInsert"]:
                 sig = "index-noop-on-stale-index"
             else:
                 sig = "index:not-sorted"
@@ -810,7 +853,7 @@ class Runner:
         cfg = self.cfg
         if f.get("dupidx") and not cfg["dedupIdx"]:
             return "where-after-duplicate-index-columns"
-        if f.get("stale"):
+        if f.get("stale") and not cfg["resortInsert"]:
             return "where-on-stale-index"
         if f["empty"] and outcome == "raised:IndexError":
             if "bisect" in f["paths"] and not cfg["guardEmpty"]:
@@ -824,16 +867,16 @@ class Runner:
         if outcome == "rows":
             if f.get("dup_probes") and not cfg["dedupIn"]:
                 return "where-in-duplicate-probes-indexed"
-            if f.get("none_probe"):
+            if f.get("none_probe") and not cfg["notinSentinel"]:
                 return "where-indexed-none-probe"
-            if f.get("match_mixed"):
+            if f.get("match_mixed") and not cfg["matchPerCell"]:
                 return "where-match-mixed-column:rows"
         if outcome == "raised:TypeError":
             if f.get("le_ge_missing") and not (cfg["missingLe"] and cfg["missingGe"]):
                 return "where-le-ge-missing-scan-TypeError"
-            if f.get("incomparable_probe"):
+            if f.get("incomparable_probe") and not cfg["bisectFallback"]:
                 return "where-indexed-incomparable-probe-TypeError"
-            if f.get("match_mixed"):
+            if f.get("match_mixed") and not cfg["matchPerCell"]:
                 return "where-match-mixed-column:raised"
         return "where:%s:%s:%s" % ("+".join(f["ops"]), "+".join(f["paths"]), outcome)
 
@@ -951,7 +994,7 @@ class Runner:
         srt = sorted_by(cols, idx, rows)
         if srt is None:
             return
-        pre = "groupby-after-duplicate-index-columns" if dup else "groupby-on-stale-index" if srt is False else None
+        pre = "groupby-after-duplicate-index-columns" if dup else "groupby-on-stale-index" if (srt is False and not self.cfg["resortInsert"]) else None
         if err is not None:
             self.fail("op #%d groupby(%d,%r) raised %r on table columns %s indexes %s rows %s" % (n, level, s, err, cols, idx, rows[:12]),
                       pre or "groupby:raised:" + errname(err))
@@ -1449,7 +1492,9 @@ class C17(Property):
             "non-trivial = some where selects a proper non-empty subset or runs on the bisect path of a non-empty table, an index orders >= 2 rows, "
             "or a groupby yields >= 2 groups; distinct by canonical JSON of the case. 10 % of the cases start from a table without columns whose first insert "
             "brings several columns; aliases (copies, views) are looked at once after every mutation; the linear history of every case is also run through "
-            "runL / runLS / WFL (ops_refine) and compared with the code")
+            "runL / runLS / WFL (ops_refine) and compared with the code; inserts into indexed tables (in order / out of order / unsortable) are demanded "
+            "to leave the rows in index order or to drop the index; on a tree with the insert repair the data-only side conditions OKL and the invariant "
+            "invB are evaluated along the history (ops_inv_refine, inv_reachable, where_reachable_eq_scan)")
     trusted_base = [
         "Python's sorted() is modelled as 'TypeError iff two non-Missing members are incomparable, else the stable arrangement' (checked exhaustively "
         "against CPython for lists up to 5 over the value kinds); bisect_left/right as the textbook loop (same probes as CPython's C code)",
@@ -1459,6 +1504,11 @@ class C17(Property):
         "right after the mutation (rows/columns/indexes, (A)); what an alias does afterwards (its cached _lohis) is not modelled and not observed",
         "ops_refine is about linear histories (one object at a time: where/copy continue with the object they create); the harness extracts the linear "
         "history of every case (Driver.linearOf, mirrored in Runner) and compares code, runL and the specification machine runLS on it",
+        "which repairs the tree under test contains is probed through the public Table API (detect_cfg: one tiny call per switch) and handed to the "
+        "model as Cfg; a signature of a repaired mechanism (stale index, incomparable probe, None probe of !in, match on a mixed column) is only "
+        "excused as a known finding while its probe says 'not repaired' - on a repaired tree the same observation is a violation",
+        "repaired insert: `for i in range(start+1,len(self))` with `<` per index column is modelled as tailOrd/rowOrd (le / gt / cannot = TypeError); "
+        "a TypeError inside the re-sort after partial permutation is modelled as 'lists restored, index dropped'",
     ]
     assumptions = [
         "row_pred and keyword arguments are not combined in one call (the code ignores the keywords; the documentation does not say what is meant)",
@@ -1466,16 +1516,27 @@ class C17(Property):
         "where the plain evaluation itself raises (operands of different kinds under an order comparison) nothing is demanded",
     ]
     partial_theorems = {
-        "where_eq_spec_partial": "needs whereWF: rows in index order (P13 insert-after-index, recorded), probes comparable with an indexed column and not None/Missing-under-order "
-                                 "(recorded), and - only for a tree without the proposed repairs - no repeated `in` probes (P8), no {'!in':..} (P9), no plain argument after a dict "
+        "where_eq_spec_partial": "needs whereWF: rows in index order (P13 insert-after-index; discharged for every reachable table of a tree with the insert repair by "
+                                 "where_reachable_eq_scan), probes comparable with an indexed column and not None/Missing-under-order "
+                                 "(the theorem does not use the two probe repairs; (B) checks those queries), and - only for a tree without the proposed repairs - no repeated `in` probes (P8), no {'!in':..} (P9), no plain argument after a dict "
                                  "argument (P10), no Missing under <=/>= on the scan path (P11), no empty indexed table (P12); `match` not covered; each conjunct has a _counterexample",
         "index_spec_partial": "needs indexWF: distinct index columns (P14 without the repair), different from the current _indexes (P13: index() returns at once), comparable non-None cells; "
                               "the permutation holds up to == in index columns (1 and 1.0 may swap inside a group)",
-        "groupby_partition": "needs rows in index order (Indexed), i.e. not after insert-after-index (P13)",
+        "groupby_partition": "needs rows in index order (Indexed): holds in every reachable state of a tree with the insert repair (inv_reachable), not after insert-after-index without it (P13)",
         "where_of_where": "as where_eq_spec_partial, with the sortedness part discharged by index_establishes_order / the theorem itself",
         "index_stable": "under indexWF (as index_spec_partial)",
         "index_eq_spec": "under indexWF; equality with the stable lexicographic sort holds up to == (Cell.key) because index exchanges 1 and 1.0 between rows that agree on an earlier index column",
-        "insert_eq_spec": "under insertWF: table owns its lists, rows as long as the distinct columns, equally long value lists, dict rows not all key-less without the repair",
+        "insert_eq_spec": "under insertWF: table owns its lists, rows as long as the distinct columns, equally long value lists, dict rows not all key-less without the repair; "
+                          "with the insert repair and an indexed table additionally: table in index order before (free for reachable tables: insert_keeps_index_order takes Inv), "
+                          "index cells incl. the new ones orderable and not None (otherwise the code drops the index: modelled and (A)/(B)-checked, no theorem); equality up to == then",
+        "insert_rows": "plain append: table without index, or tree without the insert repair (with it an indexed table is re-sorted: insert_eq_spec)",
+        "insert_mapping_rows": "as insert_rows",
+        "insert_dicts_rows": "as insert_rows",
+        "inv_reachable": "needs cfg.resortInsert (the insert repair) and OKL: every operation meets its data-only side condition (shapes, orderable cells/probes, no None); linear histories",
+        "ops_inv_refine": "as inv_reachable; equality up to ==",
+        "where_reachable_eq_scan": "as inv_reachable plus whereOK for the final query: probes of an indexed column orderable against its cells and not None (the bisectFallback / notinSentinel "
+                                   "repairs are modelled and (A)/(B)-checked but not used by the theorem), match not covered",
+        "where_match_per_cell": "needs cfg.matchPerCell (fixes/C17-match-per-cell.diff); literal patterns only (trusted base: re.search)",
         "ops_refine": "linear histories only (several live objects sharing storage are outside: copy_shares_storage_counterexample); every step needs its decidable side condition (WFL); equality up to ==; groupby and match are not operations of the machine",
         "where_match_eq_spec": "needs a homogeneous column (all str or all numbers) and a literal pattern: forced, see where_match_missing_counterexample / where_match_first_cell_counterexample",
         "copy_independent": "only for where/groupby/copy/listing; insert/index through one object change the others (recorded findings C17-F19/F20)",
@@ -1642,20 +1703,25 @@ class C17(Property):
                 fails.append(F("A", "model answered %d observations for %d" % (len(model), len(run.obs)), "A:length"))
             # ops_refine at run time: for the linear history of the case (operations on the table the history is "at"),
             # when every side condition holds (WFL) the code's table, the model's and the specification machine's agree up to ==
+            def keyrows(o):
+                return [[(["q", c[1], 1] if c[0] == "i" else ["q", c[1], c[2]] if c[0] == "f" else c) for c in r] for r in o["rows"]]
+
+            def same(x, y):
+                return "rows" in x and "rows" in y and x["columns"] == y["columns"] and x["indexes"] == y["indexes"] and keyrows(x) == keyrows(y)
             lin = ans.get("linear")
             if lin:
                 tags.append("L:wfl-" + ("holds" if lin["wfl"] else "fails") + (":n>=3" if lin["n"] >= 3 else ""))
-                if lin["wfl"]:
-                    def keyrows(o):
-                        return [[(["q", c[1], 1] if c[0] == "i" else ["q", c[1], c[2]] if c[0] == "f" else c) for c in r] for r in o["rows"]]
-
-                    def same(x, y):
-                        return "rows" in x and "rows" in y and x["columns"] == y["columns"] and x["indexes"] == y["indexes"] and keyrows(x) == keyrows(y)
+                tags.append("L:okl-" + ("holds" if lin.get("okl") else "fails") + (":n>=3" if lin["n"] >= 3 else ""))
+                if lin.get("okl") and not lin.get("inv_end"):
+                    # inv_reachable at run time
+                    fails.append(F("C", "OKL holds from a table that satisfies the invariant but the model's final table does not satisfy it: %s" % json.dumps(lin["model"])[:300], "C:inv_reachable"))
+                if lin["wfl"] or lin.get("okl"):
+                    which = "WFL" if lin["wfl"] else "OKL (data-only side conditions, repaired insert)"
                     if not same(lin["model"], lin["spec"]):
-                        fails.append(F("C", "WFL holds but runL gives %s and runLS %s" % (json.dumps(lin["model"])[:300], json.dumps(lin["spec"])[:300]), "C:ops_refine"))
+                        fails.append(F("C", "%s holds but runL gives %s and runLS %s" % (which, json.dumps(lin["model"])[:300], json.dumps(lin["spec"])[:300]), "C:ops_refine"))
                     elif run.lin_obs is not None and lin["cur"] == run.lin_cur and not same(run.lin_obs, lin["spec"]):
-                        fails.append(F("B", "a history of %d operations that meets every side condition (WFL) ends with the table %s; the specification machine (runLS: append / stable sort / plain filter) gives %s"
-                                       % (lin["n"], json.dumps(run.lin_obs)[:400], json.dumps(lin["spec"])[:400]), "history-differs-from-specification-machine"))
+                        fails.append(F("B", "a history of %d operations that meets every side condition (%s) ends with the table %s; the specification machine (runLS: append (and keep in index order) / stable sort / plain filter) gives %s"
+                                       % (lin["n"], which, json.dumps(run.lin_obs)[:400], json.dumps(lin["spec"])[:400]), "history-differs-from-specification-machine"))
                     elif run.lin_obs is not None and lin["cur"] == run.lin_cur:
                         tags.append("L:checked-against-code")
             # (C) the theorem at run time: where the hypotheses of where_eq_spec_partial hold and the plain evaluation is defined,
@@ -1667,10 +1733,17 @@ class C17(Property):
                 if k is None:
                     continue
                 if "ihyp" in sp:
-                    tags.append("C:insert-hyp-" + ("holds" if sp["ihyp"] else "fails"))
+                    ih = sp["ihyp"] or sp.get("ihyp2")
+                    tags.append("C:insert-hyp-" + ("holds" if ih else "fails") + (":indexed" if ih and not sp.get("exact", True) else ""))
                     m = model[mk_ + 1]
-                    if sp["ihyp"] and (m.get("rows") != sp["rows"] or m.get("columns") != sp["columns"]):
-                        fails.append(F("C", "op #%d: insertWF holds but the model's table is %s and insertS gives %s %s" % (k, json.dumps(m)[:300], sp["columns"], json.dumps(sp["rows"])[:300]), "C:insert_eq_spec"))
+                    if ih and "rows" in m:
+                        agree = m["rows"] == sp["rows"] if sp.get("exact", True) else keyrows(m) == keyrows(sp)
+                        if not agree or m.get("columns") != sp["columns"]:
+                            fails.append(F("C", "op #%d: insertWF holds but the model's table is %s and insertSpec gives %s %s" % (k, json.dumps(m)[:300], sp["columns"], json.dumps(sp["rows"])[:300]), "C:insert_eq_spec"))
+                    elif ih:
+                        fails.append(F("C", "op #%d: insertWF holds but the model's insert gives %s" % (k, json.dumps(m)[:300]), "C:insert_eq_spec"))
+                    if sp.get("ihyp2") and not sp.get("inv_after"):
+                        fails.append(F("C", "op #%d: the invariant and insertOK hold before the insert but the model's table afterwards is not in index order: %s" % (k, json.dumps(m)[:300]), "C:insert_keeps_index_order"))
                     continue
                 if "perm" in sp:
                     tags.append("C:index-hyp-" + ("holds" if sp["hyp"] else "fails"))
@@ -1679,6 +1752,7 @@ class C17(Property):
                                        % (k, "not a rearrangement" if not sp["perm"] else "not in index order" if not sp["sorted"] else "not the stable lexicographic sort (indexS)"), "C:index_spec"))
                     continue
                 tags.append("C:where-hyp-" + ("holds" if sp["hyp"] else "fails"))
+                tags.append("C:where-hyp2-" + ("holds" if sp.get("hyp2") else "fails"))
                 m = model[mk_ + 1]
                 if sp.get("match") is not None and k in run.naive and run.naive[k] is not None:
                     # `matchCell` (Lean) and the harness' cell-by-cell reading of match must keep the same rows
@@ -1694,7 +1768,7 @@ class C17(Property):
                         tags.append("C:whereS-defined-naive-raises")
                     elif isinstance(sp["spec"], dict) and nv is not None:
                         tags.append("C:whereS-raises-naive-defined:" + sp["spec"].get("err", "?"))
-                if sp["hyp"] and isinstance(sp["spec"], list):
+                if (sp["hyp"] or sp.get("hyp2")) and isinstance(sp["spec"], list):
                     tags.append("C:where-checked")
                     if m.get("rows") != sp["spec"]:
                         fails.append(F("C", "op #%d: hypotheses of where_eq_spec_partial hold but the model returns %s and whereS %s" % (k, json.dumps(m)[:300], json.dumps(sp["spec"])[:300]), "C:where_eq_spec"))
